@@ -49,28 +49,62 @@ def m1(prog, ctx):
             ctx.fail("M1", c, f._qualname, src(c), "cannot derive the priority class of list %s from its guarding predicates (%s)" % (name, k))
         else:
             ctx.ok("M1", "%s:%d" % (MR, c.lineno), "list %s collects class %s" % (name, k))
-    chain = []
-    for st in f.body:
-        if isinstance(st, ast.If) and isinstance(st.test, ast.Name) and st.test.id in klass and len(st.body) == 1 \
-                and isinstance(st.body[0], ast.Return):
-            chain.append((st.test.id, st))
-    ranks = [RANK.get(klass[n][0], -1) for n, _ in chain]
-    if ranks != sorted(ranks) or len(set(ranks)) != len(ranks) or set(ranks) != set(RANK.values()):
-        ctx.fail("M1", chain[0][1] if chain else f, f._qualname, " > ".join("%s(%s)" % (n, klass[n][0]) for n, _ in chain),
-                 "the return chain must try primary-unique-consistent, consistent, primary-inconsistent, inconsistent, noninformative "
-                 "in that order (found ranks %s)" % ranks)
+    # the selection after the loop, path by path: whichever list a path resolves with, every list of higher priority is empty there
+    tail = f.body[f.body.index(loop) + 1:]
+    rank_of = {n: RANK.get(k, -1) for n, (k, _c) in klass.items()}
+    selectable = set()
+    problem = None
+    npaths = 0
+    for pth in flow.block_paths(tail, what="select_best_assignment"):
+        if pth.exit != "return" or pth.exit_node is None:
+            continue
+        npaths += 1
+        rv = pth.exit_node.value
+        lists_arg = None
+        if isinstance(rv, ast.Call) and len(rv.args) >= 2:
+            a2 = rv.args[1]
+            ops = a2.values if isinstance(a2, ast.BoolOp) and isinstance(a2.op, ast.Or) else [a2]
+            if all(isinstance(o, ast.Name) and o.id in klass for o in ops):
+                lists_arg = [o.id for o in ops]
+        for sc in flow.path_scenarios(pth):
+            empty = {src(t) for t, pol in sc if isinstance(t, ast.Name) and not pol}
+            nonempty = {src(t) for t, pol in sc if isinstance(t, ast.Name) and pol}
+            if empty & nonempty:
+                continue
+            if lists_arg is None:
+                # a fallback that resolves with none of the lists is only right when all of them are empty
+                if not set(klass) <= empty:
+                    problem = problem or (pth, "falls back to %s although %s may be non-empty" % (src(rv)[:40], sorted(set(klass) - empty)))
+                continue
+            earlier = []
+            for L in lists_arg:
+                if L in empty:
+                    earlier.append(L)
+                    continue
+                higher = [H for H in klass if rank_of[H] < rank_of[L] and H not in empty and H not in earlier]
+                if higher:
+                    problem = problem or (pth, "resolves with %s (%s) while %s of higher priority may be non-empty"
+                                          % (L, klass[L][0], higher))
+                selectable.add(L)
+                earlier.append(L)
+                if L in nonempty:
+                    break
+    if sorted(rank_of.values()) != sorted(RANK.values()):
+        problem = problem or (None, "the lists do not collect the five classes one each: %s" % {n: k for n, (k, _c) in klass.items()})
+    if problem or selectable != set(klass) or npaths < 3:
+        pth, why = problem if problem else (None, "lists never selected: %s" % sorted(set(klass) - selectable))
+        ctx.fail("M1", pth.exit_node if pth else f, f._qualname, "selection order", "the alignment kept for a multi-mapped read must come from the "
+                 "first non-empty class in the order primary-unique-consistent, consistent, primary-inconsistent, inconsistent, noninformative "
+                 "(%s)" % why, path=pth.describe() if pth else None)
     else:
-        ctx.ok("M1", "%s:%d" % (MR, chain[0][1].lineno), "return chain order: " + " > ".join(klass[n][0] for n, _ in chain))
-    for n, st in chain:
-        call = st.body[0].value
-        if not (isinstance(call, ast.Call) and len(call.args) >= 2 and src(call.args[1]) == n):
-            ctx.fail("M1", st, f._qualname, src(st.body[0]), "branch for %s resolves with another index list" % n)
+        ctx.ok("M1", "%s:%d" % (MR, tail[0].lineno if tail else f.lineno), "on all %d return paths the resolving list is the first non-empty one in priority order: %s"
+               % (npaths, " > ".join(k for k, _ in sorted(((klass[n][0], rank_of[n]) for n in klass), key=lambda x: x[1]))))
     ctx.floor("M1", "priority classes", len(klass), 5)
 
 
 def m2(prog, ctx):
     # the gate
-    g = prog.func(DSP, "ReadAssignmentLoader.get_next")
+    g = prog.func_inlined(DSP, "ReadAssignmentLoader.get_next")
     loop = [l for l in g.body if isinstance(l, ast.While)]
     if len(loop) != 1:
         raise AnalysisError("ReadAssignmentLoader.get_next: record loop not found")
@@ -101,8 +135,13 @@ def m2(prog, ctx):
         ctx.fail("M2", loop, g._qualname, "suspended test", "the loader no longer drops reads whose resolved record is suspended")
         gate_field = "assignment_type"
     # record matched on (assignment_id, chr_id)
-    match = [c for c in ast.walk(loop) if isinstance(c, ast.If) and "a.assignment_id == read_assignment.assignment_id" in src(c.test)
-             and "a.chr_id == read_assignment.chr_id" in src(c.test)]
+    def _both_keys(test):
+        t = src(test)
+        m1 = re.search(r"(\w+)\.assignment_id == read_assignment\.assignment_id|read_assignment\.assignment_id == (\w+)\.assignment_id", t)
+        m2_ = re.search(r"(\w+)\.chr_id == read_assignment\.chr_id|read_assignment\.chr_id == (\w+)\.chr_id", t)
+        return bool(m1 and m2_ and (m1.group(1) or m1.group(2)) == (m2_.group(1) or m2_.group(2))) and \
+            all(pol for _a, pol in flow.conjuncts(test, True)) and len(flow.conjuncts(test, True)) >= 2
+    match = [c for c in ast.walk(loop) if isinstance(c, ast.If) and _both_keys(c.test)]
     if not match:
         ctx.fail("M2", loop, g._qualname, "record match", "resolved record is not matched on (assignment_id, chr_id)")
     else:
@@ -141,7 +180,8 @@ def m2(prog, ctx):
     if "gene_assignment_type" not in losers:
         ctx.fail("M2", keep_if[0], fa._qualname, "else: %s" % sorted(losers), "losers keep a live gene_assignment_type")
     # the loop covers every index of the list
-    rng = [l for l in walk_no_nested(fa) if isinstance(l, ast.For) and src(l.iter) == "range(len(assignment_list))" and keep_if[0] in l.body]
+    rng = [l for l in walk_no_nested(fa) if isinstance(l, ast.For) and keep_if[0] in l.body
+           and flow.index_loop(l, "assignment_list") is not None and src(keep_if[0].test).startswith(flow.index_loop(l, "assignment_list") + " in ")]
     if not rng:
         ctx.fail("M2", fa, fa._qualname, "loop", "the suspend loop does not run over every alignment of the read")
     # ignore_multimapper strategy
@@ -223,17 +263,18 @@ def m3(prog, ctx):
 
 
 def m4(prog, ctx):
-    init = prog.func(ISO, "BasicReadAssignment.__init__")
-    des = prog.func(ISO, "BasicReadAssignment.deserialize")
-    abr = prog.func(ISO, "BasicReadAssignment.deserialize_from_read_assignment")
+    init = prog.func_inlined(ISO, "BasicReadAssignment.__init__")
+    des = prog.func_inlined(ISO, "BasicReadAssignment.deserialize")
+    abr = prog.func_inlined(ISO, "BasicReadAssignment.deserialize_from_read_assignment")
 
     def attrs(f, obj):
         out = set()
         for n in walk_no_nested(f):
             if isinstance(n, (ast.Assign, ast.AugAssign)):
-                for t in (n.targets if isinstance(n, ast.Assign) else [n.target]):
-                    if isinstance(t, ast.Attribute) and isinstance(t.value, ast.Name) and t.value.id == obj:
-                        out.add(t.attr)
+                for t0 in (n.targets if isinstance(n, ast.Assign) else [n.target]):
+                    for t in (t0.elts if isinstance(t0, (ast.Tuple, ast.List)) else [t0]):
+                        if isinstance(t, ast.Attribute) and isinstance(t.value, ast.Name) and t.value.id == obj:
+                            out.add(t.attr)
         return out
     a_init, a_des, a_abr = attrs(init, "self"), attrs(des, "read_assignment"), attrs(abr, "read_assignment")
     for name, a, f in (("deserialize", a_des, des), ("deserialize_from_read_assignment", a_abr, abr)):
@@ -269,24 +310,56 @@ def m4(prog, ctx):
         else:
             ctx.ok("M4", "%s:%d" % (ISO, abr.lineno), "%s derived from first/last original exon in both constructors" % fld)
 
-    def norm_loop(f, obj, matches):
-        loops = [l for l in walk_no_nested(f) if isinstance(l, ast.For) and src(l.iter) == matches]
+    def summary_block(f, obj):
+        """Alpha-normalised text of the code that derives penalty / genes / isoforms from the match list: local names by order of
+        appearance, the record object as R, the iterated match list as MATCHES."""
+        loops = [l for l in walk_no_nested(f) if isinstance(l, ast.For) and any(isinstance(x, ast.Attribute) and x.attr == "assigned_gene"
+                                                                               for x in ast.walk(l))]
         if len(loops) != 1:
             return None
-        t = src(loops[0])
-        t = t.replace(matches, "MATCHES").replace(obj + ".", "R.")
-        return t
-    li = norm_loop(init, "self", "read_assignment.isoform_matches")
-    la = norm_loop(abr, "read_assignment", "isoform_matches")
-    if li is None or la is None or li != la:
+        lp = loops[0]
+        blk = lp._parent.body if lp in getattr(lp._parent, "body", []) else getattr(lp._parent, "orelse", [])
+        i = blk.index(lp)
+        tail = [st for st in blk[i + 1:] if isinstance(st, ast.Assign)]
+        stmts = [lp] + tail[:3]
+        locals_ = {x.id for x in ast.walk(f) if isinstance(x, ast.Name) and isinstance(x.ctx, ast.Store)}
+        matches = src(lp.iter)
+        order = {}
+
+        class N(ast.NodeTransformer):
+            def visit_Name(self, n):
+                if n.id == obj:
+                    return ast.copy_location(ast.Name(id="R", ctx=n.ctx), n)
+                if n.id in locals_:
+                    order.setdefault(n.id, "v%d" % len(order))
+                    return ast.copy_location(ast.Name(id=order[n.id], ctx=n.ctx), n)
+                return n
+        from ..engine.symexec import clone
+        out = []
+        for st in stmts:
+            t = src(clone(st)).replace(matches, "MATCHES")
+            out.append(src(N().visit(ast.parse(t).body[0])))
+        # a tuple assignment `a, b, c = x, y, z` reads like three single ones
+        text = "\n".join(out)
+        return text
+    li = summary_block(init, "self")
+    la = summary_block(abr, "read_assignment")
+
+    def same_shared_helper():
+        """both constructors obtain the three fields from one and the same helper of the class (then they cannot differ)"""
+        fo, fa_ = prog.func(ISO, "BasicReadAssignment.__init__"), prog.func(ISO, "BasicReadAssignment.deserialize_from_read_assignment")
+        def helpers(f):
+            return {c.func.attr for c in walk_no_nested(f) if isinstance(c, ast.Call) and isinstance(c.func, ast.Attribute)
+                    and c.func.attr in prog.methods_of(prog.cls(ISO, "BasicReadAssignment"), inherited=False)
+                    and any(isinstance(x, ast.Attribute) and x.attr == "assigned_gene"
+                            for x in ast.walk(prog.methods_of(prog.cls(ISO, "BasicReadAssignment"), inherited=False)[c.func.attr]))}
+        return bool(helpers(fo) & helpers(fa_))
+    if same_shared_helper():
+        ctx.ok("M4", "%s:%d" % (ISO, abr.lineno), "genes / isoforms / penalty come from one shared helper in both constructors")
+    elif li is None or la is None or li != la:
         ctx.fail("M4", abr, abr._qualname, "gene/isoform/penalty loop", "genes / isoforms / penalty are accumulated differently by the two constructors")
     else:
-        ctx.ok("M4", "%s:%d" % (ISO, abr.lineno), "genes / isoforms / penalty accumulated by identical loops")
-    for fld in ("genes", "isoforms"):
-        vi = [src(s.value) for s in ast.walk(init) if isinstance(s, ast.Assign) and src(s.targets[0]) == "self." + fld and not isinstance(s.value, ast.List)]
-        va = [src(s.value) for s in ast.walk(abr) if isinstance(s, ast.Assign) and src(s.targets[0]) == "read_assignment." + fld]
-        if vi != va:
-            ctx.fail("M4", abr, abr._qualname, "%s: %s / %s" % (fld, vi, va), "%s built differently" % fld)
+        ctx.ok("M4", "%s:%d" % (ISO, abr.lineno), "genes / isoforms / penalty accumulated by identical code (up to renaming of locals)")
 
 
 def run(prog, ctx):
